@@ -201,13 +201,15 @@ def shrink(case, workdir, want, budget=60):
                 return narrow_points(c, p["detail"]), p["detail"]
         return None
 
+    import os, time
+    deadline = time.time() + int(os.environ.get("VERIF_SHRINK_SECS", "150"))
     best = None
     runs = 0
     changed = True
-    while changed and runs < budget:
+    while changed and runs < budget and time.time() < deadline:
         changed = False
         i = 0
-        while i < len(body) and runs < budget:
+        while i < len(body) and runs < budget and time.time() < deadline:
             cand = body[:i] + body[i + 1:]
             runs += 1
             r = fails(cand)
